@@ -20,6 +20,7 @@
 import MTVerif.Props.C07
 import MTVerif.Props.C08
 import MTVerif.Props.C13
+import MTVerif.Lemmas.Normal
 namespace MT.C01
 open MT MT.Anno
 
@@ -100,10 +101,11 @@ theorem pipeline_sound (h : Hier)
     (htrans : ∀ a b c, h.sub a b = true → h.sub b c = true → h.sub a c = true)
     (hbase : ∀ c b, h.bases c = [b] → h.sub c b = true) (hrefl : ∀ c, h.sub c c = true)
     (env : Env) (nm : Names) (cfg : RwCfg) (k : Nat) (vs : List Val) (hwv : wfL vs = true)
-    (hstor : ∀ t ∈ getTypes k vs, t.storable env nm = true ∧ t.normal = true)
+    (hstor : ∀ t ∈ getTypes k vs, t.storable env nm = true)
     (rows : List Json) (hrows : ∀ j, j ∈ rows ↔ j ∈ (getTypes k vs).map (encodeTy nm)) :
     ∀ v ∈ vs, conforms h.sub true (positionType h cfg k (decodeAll env rows)) v = true :=
-  position_sound h htrans hbase hrefl cfg k vs hwv _ (decodeAll_mem env nm _ hstor rows hrows)
+  position_sound h htrans hbase hrefl cfg k vs hwv _
+    (decodeAll_mem env nm _ (fun t ht => ⟨hstor t ht, getTypes_normal k vs t ht⟩) rows hrows)
 
 /-! ### what is emitted at the position (strategy flags) -/
 
